@@ -77,6 +77,11 @@ func agxPrefixes() map[string][]string {
 		"cp": {"a/s1/F+1/f", "a/s2/F+1/f", "c", "T/F"},
 		// s1 collected, re-created under a new ref, restart => duplicate series records
 		"dup": {"a/s1/F+1/f", "c", "T/F+1", "a/s1/F+1/f", "c", "re"},
+		// as dup, but the re-created series' samples go on in a LATER segment than its series record
+		// (float / int histogram / float histogram record types have separate replay branches)
+		"dupspan":   {"a/s1/F+1/f", "c", "T/F+1", "a/s1/F+1/f", "c", "rot", "a/s1/F+1/f", "c", "re"},
+		"dupspanh":  {"a/s1/F+1/f", "c", "T/F+1", "a/s1/F+1/h", "c", "rot", "a/s1/F+1/h", "c", "re"},
+		"dupspanfh": {"a/s1/F+1/f", "c", "T/F+1", "a/s1/F+1/fh", "c", "rot", "a/s1/F+1/fh", "c", "re"},
 	}
 }
 
@@ -644,7 +649,9 @@ type agxWal struct {
 	CP          int // index of the checkpoint read, -1 if none
 	First, Last int
 	Items       []agxWalItem
-	SeriesRecs  []string // "seg:ref=series" in order
+	SeriesRecs  []string                                 // "seg:ref=series" in order
+	RefNames    map[chunks.HeadSeriesRef]map[string]bool // every series a ref stood for in this log
+	strict      bool                                     // a ref standing for two series is an error
 	Digest      string
 }
 
@@ -663,7 +670,13 @@ func agxReadRecords(rc io.ReadCloser, seg int, withST bool, refs map[chunks.Head
 			}
 			for _, s := range ss {
 				k := agxSeriesKey(s.Labels)
-				if prev, ok := refs[s.Ref]; ok && prev != k {
+				if w.RefNames[s.Ref] == nil {
+					w.RefNames[s.Ref] = map[string]bool{}
+				}
+				w.RefNames[s.Ref][k] = true
+				// (the retained untruncated copy may legitimately hold two incarnations of a ref: after a
+				// checkpoint dropped every record of a ref, a restart can hand the number out again)
+				if prev, ok := refs[s.Ref]; ok && prev != k && w.strict {
 					return vx.Failf("wal-ref-reused-for-other-series", "series ref %d stands for %s and later for %s", s.Ref, prev, k)
 				}
 				refs[s.Ref] = k
@@ -722,7 +735,7 @@ func agxReadRecords(rc io.ReadCloser, seg int, withST bool, refs map[chunks.Head
 // agxDecode reads dir the way replay does: newest checkpoint, then every segment after it.
 // useCheckpoint=false reads all segments only (shadow log).
 func agxDecode(dir string, withST, useCheckpoint bool) (*agxWal, *vx.Fail) {
-	w := &agxWal{CP: -1}
+	w := &agxWal{CP: -1, RefNames: map[chunks.HeadSeriesRef]map[string]bool{}, strict: useCheckpoint}
 	refs := map[chunks.HeadSeriesRef]string{}
 	start := -1
 	if useCheckpoint {
@@ -817,11 +830,15 @@ func (x *agx) checkC48(w *agxWal) *vx.Fail {
 	if x.cfg.InMem {
 		inmem = "/inmem-checkpoint"
 	}
-	resolved := map[string]int{} // item id -> count (with a preceding series record)
-	orphan := map[string]int{}   // kind@t=val -> count (no preceding series record)
+	resolved := map[string]int{}    // item id -> count (with a preceding series record)
+	orphan := map[string]int{}      // kind@t=val -> count (no preceding series record)
+	orphanInSeg := map[string]int{} // ... of those, outside the checkpoint (in a live segment)
 	for _, it := range w.Items {
 		if it.Series == "" {
 			orphan[fmt.Sprintf("%s@%d=%s", it.Kind, it.T, it.Val)]++
+			if it.Seg >= 0 {
+				orphanInSeg[fmt.Sprintf("%s@%d=%s", it.Kind, it.T, it.Val)]++
+			}
 		} else {
 			resolved[agxItem{S: it.Series, Kind: it.Kind, T: it.T, Val: it.Val}.id()]++
 		}
@@ -872,6 +889,13 @@ func (x *agx) checkC48(w *agxWal) *vx.Fail {
 			sig = "accepted-sample-without-series-record/" + op
 			msg = fmt.Sprintf("after %s: committed %s is in the WAL but no series record for its ref precedes it in replay order. history %v; wal: %s", x.lastOp, id, x.hist, w.Digest)
 		}
+		if orphanInSeg[k] > 0 {
+			// The known limitations all concern samples that a CHECKPOINT kept by time while it
+			// dropped their series record by segment. A sample still sitting in a live segment whose
+			// series record is gone is a different failure: never filed under a known precondition.
+			sig = "accepted-sample-without-series-record/in-live-segment/" + op
+			race = ""
+		}
 		if inmem != "" {
 			race = ""
 		}
@@ -893,6 +917,10 @@ func (x *agx) checkC15(w *agxWal) *vx.Fail {
 	x.syncShadow()
 	op := strings.SplitN(x.lastOp, "/", 2)[0]
 	owedFrom := x.maxMint
+	sh, f := agxDecode(x.shadow, x.cfg.ST, false)
+	if f != nil {
+		return vx.Failf("shadow-"+f.Signature, "shadow log: %s", f.Message)
+	}
 	// (2) every non-series record refers to a series whose record precedes it
 	orphan := map[string]int{}
 	for _, it := range w.Items {
@@ -901,25 +929,32 @@ func (x *agx) checkC15(w *agxWal) *vx.Fail {
 		}
 		orphan[fmt.Sprintf("%s@%d=%s", it.Kind, it.T, it.Val)]++
 		// The agent tracks collected series (db.deleted) precisely so that no sample is left
-		// without its series record, old or not. Known preconditions get their own signature.
-		known := x.m.known("s1")
-		if known == "" {
-			known = x.m.known("s2")
-		}
-		if known == "" && x.mintWentBack {
-			known = "/truncation-time-went-backwards"
+		// without its series record, old or not. The known limitations all concern samples that a
+		// CHECKPOINT kept by time while it dropped their series record by segment: only an orphan
+		// inside the checkpoint, of a series for which the precondition was observed (the series
+		// is identified through the untruncated log), gets the known signature. An orphan in a
+		// live segment is always a plain violation.
+		known := ""
+		if it.Seg == -1 {
+			for _, name := range vx.SortedKeys(sh.RefNames[it.Ref]) {
+				if known == "" {
+					known = x.m.known(name)
+				}
+			}
+			if known == "" && x.mintWentBack {
+				known = "/truncation-time-went-backwards"
+			}
 		}
 		sig := "agent-record-without-preceding-series-record" + known
+		if it.Seg >= 0 {
+			sig = "agent-record-without-preceding-series-record/in-live-segment"
+		}
 		msg := fmt.Sprintf("after %s: WAL (seg %d, -1=checkpoint) holds a %s record t=%d for ref %d, but no series record for that ref precedes it in replay order (truncation time %d). history %v; wal: %s", x.lastOp, it.Seg, it.Kind, it.T, it.Ref, owedFrom, x.hist, w.Digest)
 		if x.soft != nil {
 			x.soft(sig, msg)
 			continue
 		}
 		return vx.Failf(sig, "%s", msg)
-	}
-	sh, f := agxDecode(x.shadow, x.cfg.ST, false)
-	if f != nil {
-		return vx.Failf("shadow-"+f.Signature, "shadow log: %s", f.Message)
 	}
 	count := func(w *agxWal) map[string]int {
 		res := map[string]int{}
